@@ -5,8 +5,26 @@ BINARIES = {
     "props": {"pkg": "./props", "tags": "verif"},
 }
 
+MANIFEST_META = {
+    "hooks": {
+        "guard": "verif",
+        "enable": "go test -c -tags verif in /verif/harness (module verifharness, replace github.com/benbjohnson/litestream => /repo)",
+        "baseline_off_cmd": "/verif/tools/baseline.sh",
+        "source_commits": [],
+        "add_only": True,
+    },
+    "not_applicable": {},
+    "pending_reason": "check not built yet in this session (see DESIGN.md section 4 for the planned generated-input check); not claimed until it runs silently on the unchanged tree",
+    "notes": "Fix commits in /repo: 25088cd (C02 snapshot position). Known findings: known_findings.txt. See DESIGN.md.",
+}
+
 PROPS = {
     "C08": {
+        "manifest": {
+            "text": "random file sets x targets checked in both directions (a returned plan is a valid chain ending where requested; an error is justified by brute-force reachability); thorough adds exhaustive enumeration of all 2^21 file sets for N=3",
+            "note": "in-memory ReplicaClient mirrors file.ReplicaClient's listing order; the reachability oracle shares no code with CalcRestorePlan",
+            "technique": "property-based testing (rapid) against a brute-force reference model; bounded exhaustive enumeration",
+        },
         "binary": "props",
         "level": "exploration",
         "rule": ("random sets of <=14 files (level in {0,1,2,9}, rarely 3/8; 1<=min<=max<=N<=10; snapshots have min=1; "
@@ -24,6 +42,11 @@ PROPS = {
         "exhaustive_thorough": False,
     },
     "C01": {
+        "manifest": {
+            "text": "generated application x litestream histories; after every acknowledged round the restore is compared page-for-page with SQLite's own recovery of a copy of (db, wal), plus integrity_check and logical digest",
+            "note": "file replica only; monitors off (statement-granularity schedules owned by the harness); reference image built without litestream code",
+            "technique": "stateful property-based testing (rapid) with an independent page-level oracle",
+        },
         "binary": "props",
         "level": "exploration",
         "rule": ("histories of 8-40 steps (80 in thorough) over the application grammar (insert/update-in-place/delete/DDL/"
@@ -38,6 +61,45 @@ PROPS = {
                         "reference image = SQLite's own recovery+checkpoint of a copy of (db, db-wal)"],
         "runs": [
             {"name": "histories", "test": "TestProp_C01", "kind": "rapid", "checks_quick": 600, "checks_thorough": 20000, "shards": 6},
+        ],
+    },
+    "C02": {
+        "manifest": {
+            "text": "generated histories with litestream operations scheduled inside open/rolled-back spilled transactions; every TXID at every level is restored and matched against a ledger of committed states; snapshots compared with level-0-only restores",
+            "note": "statement-granularity schedules; ledger digests read through SQLite from the source after each commit",
+            "technique": "stateful property-based testing (rapid) with a version-stamped logical ledger as reference model",
+        },
+        "binary": "props",
+        "level": "exploration",
+        "rule": ("C01-style histories biased to multi-statement transactions on a 5-page cache (uncommitted frames spill into the WAL), "
+                 "rollbacks after spilling, litestream Sync/SyncAndWait/Checkpoint/Snapshot/Compact scheduled between the statements "
+                 "of an open transaction, MaxSyncWALBytes of 1 or 3 frames; at 3 points of each history every TXID present at any "
+                 "level of the replica is restored and compared with the ledger of committed states (version stamp -> digest). "
+                 "Non-trivial = a litestream sync/checkpoint/snapshot ran while uncommitted frames were physically in the WAL, or a "
+                 "rollback happened after frames had spilled; distinct = hash of (config, abstracted op sequence)."),
+        "assumptions": ["schedules are enumerated at statement granularity (the granularity at which SQLite makes frames visible); preemptive concurrency is C12's",
+                        "file replica client only"],
+        "runs": [
+            {"name": "histories", "test": "TestProp_C02", "kind": "rapid", "checks_quick": 400, "checks_thorough": 15000, "shards": 6},
+        ],
+    },
+    "C20": {
+        "manifest": {
+            "text": "generated client programs and request-level schedules against an in-memory conditional-write store; mutual-exclusion, fencing and generation invariants over the linearised history; thorough enumerates all interleavings of short programs",
+            "note": "store is linearisable; TTLs are +-1h so wall-clock never decides; known finding release-resets-generation excluded by shape",
+            "technique": "property-based testing (rapid) with a harness-owned scheduler; bounded exhaustive schedule enumeration",
+        },
+        "binary": "props",
+        "level": "exploration",
+        "rule": ("2-3 s3.Leaser clients with generated programs of 2-6 ops over {acquire, renew(last lease), release(last lease)} x TTL in "
+                 "{+1h live, -1h already expired} sharing one in-memory S3 with conditional-write semantics; a generated schedule of 64 "
+                 "choices releases exactly one parked storage request at a time; invariants M1-M4 over the linearised history. The thorough "
+                 "tier additionally enumerates EVERY interleaving of 2 clients x all programs of length <=2. Non-trivial = another "
+                 "client's request landed between the read and the conditional write of an acquire; distinct = hash of (programs, schedule)."),
+        "assumptions": ["the store is linearisable (real S3 anomalies are not modelled)", "TTL only takes +-1h so time.Now() inside the leaser never decides an outcome"],
+        "runs": [
+            {"name": "schedules", "test": "TestProp_C20", "kind": "rapid", "checks_quick": 100000, "checks_thorough": 3000000},
+            {"name": "enum2x2", "test": "TestEnum_C20", "kind": "plain", "tiers": ["thorough"], "env": {"VERIF_ENUM": "1", "VERIF_ENUM_LEN": "2"}},
         ],
     },
 }
